@@ -43,6 +43,9 @@ import (
 
 const prop = "C18"
 
+// detMode: the determinism self-test is running (VERIF_MODE=determinism).
+var detMode = os.Getenv("VERIF_MODE") == "determinism"
+
 func TestWorker(t *testing.T) {
 	simkit.WorkerMain(t, simkit.Options{
 		Engine:       "peersim",
@@ -176,7 +179,7 @@ func (s *sim) drawKnobs() {
 	k.tempo = simkit.Pick(c, "tempo", 6, 3, 1)
 	k.yieldMode = c.Bool(300, "yieldmode")
 	k.burst = c.Bool(250, "burstmode")
-	if os.Getenv("VERIF_MODE") == "determinism" {
+	if detMode {
 		// bursts are the one part that is not replayable (see top of file)
 		k.burst = false
 	}
@@ -490,6 +493,14 @@ func (s *sim) drawInvOp(c *caller) *op {
 	o.token[30] = byte(o.id)
 	o.token[29] = 0xA5
 	o.invTyp = uint32(1 + simkit.Pick(ch, "qinvtyp", 3, 1))
+	if detMode && s.associated && !s.verackReturned() {
+		// A block inventory queued before the handshake completes sits in
+		// outputInvChan while messages sit in outputQueue; which of the two the
+		// freshly started queueHandler takes first is the runtime's select
+		// choice (a tie in the sense of DESIGN §1.4).  The oracles do not care;
+		// the determinism self-test excludes the tie.
+		o.invTyp = 1
+	}
 	if s.associated && !s.established() {
 		s.preEstQueued++
 	}
@@ -608,6 +619,15 @@ func (s *sim) chunkSize() (int, bool) {
 func (s *sim) stepDeliver() bool {
 	rm := s.rm
 	if !rm.remaining() {
+		return false
+	}
+	if detMode && s.conn.PendingRead() > 0 {
+		// The peer has not consumed what it was given (a listener is asleep, a
+		// goroutine is parked, a write is stalled).  A backlog of input is read
+		// by the input side concurrently with whatever the output side is
+		// doing once the peer moves again - two independent activities whose
+		// relative order is the runtime's.  The oracles hold for every order;
+		// the determinism self-test does not build backlogs.
 		return false
 	}
 	s.beginStep("deliver", false)
